@@ -160,6 +160,143 @@ pub fn check_case(tape: &[u16], rc: &mut RCase) -> Result<(), Failure> {
     Ok(())
 }
 
+/// Aimed phase: the stale body of an earlier transaction can only matter through the first round of the
+/// next resolution (min_utxo is sized from it before anything was compiled). It shows when that estimate
+/// decides something discrete: whether the only candidate UTxO still covers `min_amount`. So the target's
+/// funding is set to the smallest amount a fresh instance can resolve (found by bisection) plus a small
+/// slack, and the history compiles outputs of another size at the position `min_utxo` looks at.
+pub fn check_tight(tape: &[u16], rc: &mut RCase) -> Result<(), Failure> {
+    let mut t = Tape::new(tape);
+    // small fees: the fee term of later rounds must not swamp the difference between two size estimates
+    let cfg = Cfg {
+        coins_per_byte: 4310,
+        coeff: [0u64, 44][t.pick(2)],
+        constant: [0u64, 155_381][t.pick(2)],
+        extra_fees: [Some(0), None][t.pick(2)],
+        ..Cfg::default()
+    };
+    let rounds = [10usize, 30][t.pick(2)];
+    let names = ["o_a", "o_b", "o_c", "o_d"];
+    let n_out = 1 + t.pick(3);
+    let j = t.pick(n_out);
+    // history: same number of outputs or more, output j carries tokens (a larger encoding) or a big amount
+    let hist_len = 1 + t.pick(2);
+    let mut history = vec![];
+    for _ in 0..hist_len {
+        let hn = n_out + t.pick(2);
+        let fat = t.pick(3);
+        let mut outs = vec![];
+        for k in 0..hn {
+            let mut terms = vec![Term::AdaLit(1_700_000 + k as i128)];
+            if k == j {
+                match fat {
+                    0 => terms.push(Term::TokLit(1 + t.pick(1000) as i128)),
+                    1 => terms = vec![Term::AdaLit((1i128 << 33) + t.pick(1000) as i128)],
+                    _ => {}
+                }
+            }
+            outs.push(rgen::ROut { name: Some(names[k.min(3)].to_string() + &k.to_string()), party: 1, terms, change: false });
+        }
+        outs.push(rgen::ROut { name: None, party: 0, terms: vec![], change: true });
+        history.push(Scenario {
+            tx_name: "earlier".into(),
+            params: vec![("quantity".into(), 1)],
+            ins: vec![rgen::RIn { name: "source".into(), party: 0, many: false, min: vec![Term::AdaLit(2_000_000), Term::Fees], ref_id: None }],
+            outs,
+            collateral: None,
+            store: vec![rgen::SUtxo { id: 7, party: 0, lovelace: 1i128 << 36, token: 5000 }],
+            n_parties: 3,
+        });
+    }
+    let pay = 1_500_000 + t.pick(500_000) as i128;
+    let mk = |funding: i128| {
+        let mut outs = vec![];
+        for k in 0..n_out {
+            let terms = if k == j { vec![Term::MinUtxo(j)] } else { vec![Term::AdaLit(pay + k as i128)] };
+            outs.push(rgen::ROut { name: Some(names[k.min(3)].to_string() + &k.to_string()), party: 1, terms, change: false });
+        }
+        outs.push(rgen::ROut { name: None, party: 2, terms: vec![], change: true });
+        Scenario {
+            tx_name: "target".into(),
+            params: vec![("quantity".into(), 1)],
+            ins: vec![rgen::RIn {
+                name: "source".into(),
+                party: 2,
+                many: false,
+                min: vec![Term::AdaLit(pay * n_out as i128), Term::MinUtxo(j), Term::Fees],
+                ref_id: None,
+            }],
+            outs,
+            collateral: None,
+            store: vec![rgen::SUtxo { id: 0, party: 2, lovelace: funding, token: 0 }],
+            n_parties: 3,
+        }
+    };
+    let fresh_ok = |funding: i128| matches!(run_one(&mk(funding), &mut pipeline::compiler(&cfg), rounds), Outcome::Ok { .. });
+    let (mut lo, mut hi) = (0i128, 1i128 << 34);
+    if !fresh_ok(hi) {
+        rc.label("tight:target_never_resolves");
+        return Ok(());
+    }
+    while hi - lo > 1 {
+        let mid = (lo + hi) / 2;
+        if fresh_ok(mid) {
+            hi = mid;
+        } else {
+            lo = mid;
+        }
+    }
+    let slack = [0i128, 1, 1000, 100_000][t.pick(4)] + t.pick(50) as i128;
+    let target = mk(hi + slack);
+    let rendered = || {
+        json!({
+            "history": history.iter().map(|h| h.to_json()).collect::<Vec<_>>(),
+            "target": target.to_json(),
+            "coins_per_utxo_byte": cfg.coins_per_byte,
+            "min_fee_coefficient": cfg.coeff, "min_fee_constant": cfg.constant, "extra_fees": cfg.extra_fees,
+            "max_optimize_rounds": rounds,
+            "smallest_funding_a_fresh_instance_resolves": hi.to_string(),
+        })
+    };
+    let f1 = run_one(&target, &mut pipeline::compiler(&cfg), rounds);
+    let f2 = run_one(&target, &mut pipeline::compiler(&cfg), rounds);
+    if f1 != f2 {
+        rc.label("unstable_baseline(C10)");
+        return Ok(());
+    }
+    let mut used = pipeline::compiler(&cfg);
+    for h in &history {
+        let o = run_one(h, &mut used, rounds);
+        rc.label(match o {
+            Outcome::Ok { .. } => "tight:history_entry:ok",
+            Outcome::Err(_) => "tight:history_entry:err",
+            Outcome::Panic(_) => "tight:history_entry:panic",
+        });
+    }
+    let after = run_one(&target, &mut used, rounds);
+    let key = hash64(&format!("{:?}", rendered()));
+    if after != f1 {
+        let describe = |o: &Outcome| match o {
+            Outcome::Ok { payload, fee, .. } => format!("Ok(fee {}, {} bytes)", fee, payload.len()),
+            Outcome::Err(e) => format!("Err({})", e),
+            Outcome::Panic(p) => format!("PANIC({})", p),
+        };
+        let clause = match (&f1, &after) {
+            (_, Outcome::Panic(_)) => "panic_after_history",
+            (Outcome::Ok { .. }, Outcome::Ok { .. }) => "different_transaction_after_history",
+            _ => "different_outcome_after_history",
+        };
+        let detail = format!("fresh instance: {} ; after {} earlier resolutions: {}", describe(&f1), history.len(), describe(&after));
+        return Err(Failure::new(clause, detail, rendered()));
+    }
+    rc.label(match f1 {
+        Outcome::Ok { .. } => "tight:target:ok",
+        _ => "tight:target:err",
+    });
+    rc.record(key, matches!(f1, Outcome::Ok { .. }), rendered);
+    Ok(())
+}
+
 pub fn run(tier: Tier, seed: u64) -> Report {
     let mut r = Report::new("C20", tier, seed);
     r.rule = "histories of 0..4 earlier resolve_tx calls on one Compiler (templates with 0..5 pay outputs, succeeding, \
@@ -171,12 +308,17 @@ pub fn run(tier: Tier, seed: u64) -> Report {
         .into();
     r.assumptions = vec!["two fresh instances must agree first (otherwise counted as unstable_baseline, C10's subject)".into()];
     r.explore("histories", tier.pick(6_000, 200_000), 500, &|t, rc| check_case(t, rc));
+    r.explore("tight_funding", tier.pick(1_500, 40_000), 60, &|t, rc| check_tight(t, rc));
     r
 }
 
 pub fn replay(phase: &str, tape: &[u16], seed: u64) -> Report {
     let mut r = Report::new("C20", Tier::Quick, seed);
     r.strict = true;
-    r.explore_list(phase, &[tape.to_vec()], &|t, rc| check_case(t, rc));
+    if phase.starts_with("tight") {
+        r.explore_list(phase, &[tape.to_vec()], &|t, rc| check_tight(t, rc));
+    } else {
+        r.explore_list(phase, &[tape.to_vec()], &|t, rc| check_case(t, rc));
+    }
     r
 }
